@@ -127,7 +127,16 @@ def build_pixels(c):
     s, e = rows['signal'], rows['error']
     data = sc.array(dims=['obs'], values=np.array(s['values'], dtype=s['dtype']),
                     variances=np.array(e['values'], dtype=s['dtype']), unit=s['unit'])
-    return sc.DataArray(data, coords=coords)
+    # what the data array carries besides the nine rows (optional; the file format knows neither masks nor other coordinates)
+    for x in c.get('extra_coords', []):
+        vals = np.array(x['values'], dtype=x['dtype'])
+        var = np.array(x['variances'], dtype=x['dtype']) if 'variances' in x else None
+        if x.get('scalar'):
+            coords[x['name']] = sc.scalar(vals[0], variance=None if var is None else var[0], unit=x['unit'], dtype=x['dtype'])
+        else:
+            coords[x['name']] = sc.array(dims=['obs'], values=vals, variances=var, unit=x['unit'])
+    masks = {m['name']: sc.array(dims=['obs'], values=np.array(m['flags'], dtype=bool)) for m in c.get('masks', [])}
+    return sc.DataArray(data, coords=coords, masks=masks)
 
 
 def oracle_pixels(da):
